@@ -133,11 +133,7 @@ func mwAdmission(t *testing.T, h *H) {
 				}
 			}
 			mu.Unlock()
-			for _, m := range ms {
-				m.Close()
-			}
-			r.close()
-			time.Sleep(10 * time.Minute)
+			r.shutdown(ms...)
 		})
 		// expected verdict
 		firstRej := -1
@@ -296,9 +292,7 @@ func mwEvents(t *testing.T, h *H) {
 				c.OnConnect(func() { sg.emit(c, func(r string) { mu.Lock(); acked = r; mu.Unlock() }) })
 				c.Connect()
 				time.Sleep(3 * time.Second)
-				m.Close()
-				r.close()
-				time.Sleep(10 * time.Minute)
+				r.shutdown(m)
 			})
 			cs := make([]string, len(chain))
 			for i, ok := range chain {
